@@ -42,7 +42,7 @@ CONSTANTS
 VARIABLES
           \* @type: {ck: Str, cv: Int, pk: Str, pv: Int, ws: Int, we: Int, cm: Str};
           cfg,   \* the tracepoint's settings (never changes): [ck, cv, pk, pv, ws, we, cm]
-                 \*   ck/pk: "int" (text) | "num" (a number) | "bad" | "absent" (fire_count / fire_period argument), cv/pv the value
+                 \*   ck/pk: "int" (text) | "num" (a number) | "bad" (unparsable text) | "odd" (no number at all) | "absent" (fire_count / fire_period argument), cv/pv the value
                  \*   ws/we: window start/end in ticks, 0 = unbounded on that side
                  \*   cm: "none" (no condition) | "blank" | "expr" (truth decided per hit)
           \* @type: Int;
